@@ -219,11 +219,12 @@ def rExt (sh : RShape) : Ext := fun st recv fn args =>
   | .ref a, "executed_order", [_] => if 21 ≤ a ∧ a ≤ 24 then some (.none, st) else none
   | _, _, _ => none
 
-/-- the translated program without the simulator's ledger (an extern here; its source theorem is SrcLedger) -/
+/-- the translated program without the simulator's own methods — ledger, hook dispatch, clock advance are
+extern here; their source theorems are SrcLedger and SrcSimulator -/
 def rProg : List (String × FunDef) :=
-  PamsGen.Code.prog.filter (fun e => !(e.1 == "Simulator._update_agents_for_execution"))
+  PamsGen.Code.prog.filter (fun e => !(e.1.startsWith "Simulator."))
 
-def rEnv (sh : RShape) : Env := { prog := rProg, globals := globals, ext := rExt sh }
+def rEnv (sh : RShape) : Env := { prog := rProg, globals := globals, ext := rExt sh, mro := PamsGen.Code.mroOf }
 
 def argObs : Val → Obs
   | .list l => .tuple (l.map Obs.ofVal)
